@@ -8,6 +8,7 @@ import Lean.Data.Json
 import CirkitModel.Model.Num
 import CirkitModel.Model.Sym
 import CirkitModel.Model.Fold
+import CirkitModel.Model.Mul
 
 open Lean Cirkit
 
@@ -325,6 +326,20 @@ def handle (M : Mode R) (s : State R) (j : Json) : Except String (State R × Jso
           | some sh => Json.arr (sh.toArray.map fun n => toJson (n : Nat))
           | none => Json.null),
         ("ok", showArr A t.data)])
+  | "op_mul" => do
+      -- model multiply on the denotations of two registered circuits
+      let c1 ← s.get (← getStr j "id")
+      let c2 ← s.get (← getStr j "id2")
+      let θ := thetaFn (← parseTheta M j)
+      let rows ← parseRows M j "X"
+      let o1 ← c1.denote A θ
+      let o2 ← c2.denote A θ
+      match Circ.mul A.toOps ⟨o1⟩ ⟨o2⟩ with
+      | .error e => pure (s, Json.mkObj [("refused", Json.str (reprStr e))])
+      | .ok p =>
+          let res := rows.map fun row =>
+            Json.arr (p.outputs.toArray.map fun n => showArr A (n.evalV A.toOps (rowFn A row)))
+          pure (s, Json.mkObj [("ok", Json.arr res.toArray)])
   | "foldcert" => do
       -- validate a fold certificate read from the real compiled circuit, and recompute the model's
       let n ← getNat j "n"
